@@ -8,6 +8,9 @@
 (*   handler notice           [k |-> "n", t |-> "-", n |-> 0, sig |-> s]   ("Received signal ...") *)
 (*   handler critical line    [k |-> "c", ...]  ("Program terminated unexpectedly ...")            *)
 (*   anything else            [k |-> "x", ...]                                                      *)
+(* The stop()/exit clause of C07 is conditional on wait_for_queues_to_empty_before_exit (wait); the   *)
+(* signal clause is not: with wait = FALSE a stop / exit request promises nothing, a handled signal *)
+(* still promises the signalled thread's earlier statements, the notice and the right status.       *)
 (* The contract is deliberately silent about: statements of threads other than the signalled one,   *)
 (* statements whose log call had not returned when the stop was requested, duplicates, cross-thread *)
 (* order, whether is_running() is false after stop, what a signal does while no backend runs.       *)
@@ -51,8 +54,9 @@ SigEndOK(lines, t, k, s, status) == SigLinesOK(lines, t, k, s) /\ SigStatusOK(s,
 (*   must[t]  statements of t that a stop request has promised to the file                          *)
 (*   up       a Start has returned and no stop / end has been requested since                       *)
 (*   end      the request that ends the process, once made                                          *)
+(*   wait     BackendOptions::wait_for_queues_to_empty_before_exit of this process                  *)
 NoEnd == [kind |-> "none", t |-> "-", sig |-> "-", code |-> 0, k |-> 0, scope |-> FALSE]
-CInit(T) == [done |-> [t \in T |-> 0], must |-> [t \in T |-> 0], up |-> FALSE, end |-> NoEnd]
+CInit(T, wait) == [done |-> [t \in T |-> 0], must |-> [t \in T |-> 0], up |-> FALSE, end |-> NoEnd, wait |-> wait]
 
 CLogRet(c, t, n) == [c EXCEPT !.done[t] = n]
 
@@ -61,7 +65,7 @@ CStartOK(c, running) == running
 CStart(c) == [c EXCEPT !.up = TRUE]
 
 \* a stop request promises every statement whose log call returned before it (only a running backend is stopped)
-CStopCall(c) == [c EXCEPT !.must = IF c.up THEN c.done ELSE c.must, !.up = FALSE]
+CStopCall(c) == [c EXCEPT !.must = IF c.up /\ c.wait THEN c.done ELSE c.must, !.up = FALSE]
 \* ... and they are written and flushed when stop() returns (= the backend thread has terminated)
 CStopRetOK(c, lines) == \A t \in DOMAIN c.must : HasStmts(lines, t, c.must[t])
 
@@ -70,7 +74,7 @@ CStopRetOK(c, lines) == \A t \in DOMAIN c.must : HasStmts(lines, t, c.must[t])
 CEndCall(c, kind, t, s, code) ==
   [c EXCEPT !.end = [kind |-> kind, t |-> t, sig |-> s, code |-> code,
                      k |-> IF kind = "sig" THEN c.done[t] ELSE 0, scope |-> c.up],
-            !.must = IF kind # "sig" /\ c.up THEN c.done ELSE c.must,
+            !.must = IF kind # "sig" /\ c.up /\ c.wait THEN c.done ELSE c.must,
             !.up = IF kind # "sig" THEN FALSE ELSE c.up]
 
 CEndOK(c, status, lines) ==
